@@ -28,6 +28,7 @@ Grammar (line oriented, '#' at column 0 starts a comment outside text sections):
       @timeout seconds
       @tier quick|thorough
       @canary on|off
+      @allow-wrap <cname> ...              bodies in which unsigned wrap-around is intended (pragma disables the check there)
       @harness ... (C text; must define void verif_harness(void))
       @extra ... (C text appended before the harness: stub bodies etc.)
       @property-classes a b ...            obligation classes that are property-level for this proof
@@ -41,16 +42,16 @@ class SpecError(Exception):
 
 class FunctionSpec:
     def __init__(self, name):
-        self.name = name; self.contract = ''; self.loops = {}; self.ghost = {}; self.origin = None
+        self.name = name; self.contract = ''; self.loops = {}; self.ghost = {}; self.origin = None; self.tu = None
 
 class Proof:
     def __init__(self, name):
         self.name = name; self.tu = None; self.enforce = None; self.bodies = []; self.replace = []
-        self.checks = []; self.nochecks = []; self.backend = 'cadical'; self.unwind = None; self.unwindset = None
+        self.checks = []; self.nochecks = []; self.backend = 'kissat'; self.unwind = None; self.unwindset = None
         self.bounded = None; self.complete_unwind = None; self.defines = []; self.timeout = 600
         self.tier = 'quick'; self.canary = True; self.harness = None; self.extra = ''; self.origin = None
         self.replay = None; self.note = ''; self.nondet_static = True; self.object_bits = None
-        self.expect_unreachable = False; self.includes = []
+        self.expect_unreachable = False; self.includes = []; self.allow_wrap = []
 
 class Spec:
     def __init__(self):
@@ -63,6 +64,7 @@ class Spec:
         self.files.append(path)
         lines = open(path).read().split('\n')
         i = 0
+        file_tu = None
         def block(i):
             out = []
             while i < len(lines) and lines[i].strip() != '@end':
@@ -77,6 +79,7 @@ class Spec:
             key = w[0]
             if key == '@tu':
                 if top: self.tu = w[1]
+                file_tu = w[1]
                 i += 1
             elif key == '@use':
                 self.load(os.path.join(os.path.dirname(path), w[1]), top=False); i += 1
@@ -88,7 +91,7 @@ class Spec:
                 self.stubs[w[1]] = '\n'.join(b)
             elif key == '@function':
                 b, i = block(i + 1)
-                f = FunctionSpec(w[1]); f.origin = path
+                f = FunctionSpec(w[1]); f.origin = path; f.tu = file_tu
                 sec = None
                 for l in b:
                     s = l.strip()
@@ -131,6 +134,7 @@ class Spec:
                         elif k == '@nondet-static': p.nondet_static = v[0] == 'on'
                         elif k == '@object-bits': p.object_bits = int(v[0])
                         elif k == '@note': p.note = ' '.join(v)
+                        elif k == '@allow-wrap': p.allow_wrap += v
                         elif k == '@replay': p.replay = v
                         elif k == '@include': p.includes += v
                         elif k == '@harness': sec = 'harness'; p.harness = ''
